@@ -273,6 +273,10 @@ impl ClientLoop {
             self.decode,
         )?;
 
+        // frames that arrived before this request is transmitted (e.g. together with the
+        // reply to the previous one) must never be taken for its reply, whatever id they carry
+        self.reader.discard_buffered_frames(self.decode)?;
+
         io.write(bytes, self.decode.physical).await?;
 
         let deadline = Instant::now() + request.timeout;
